@@ -16,7 +16,7 @@ import (
 // nothing the implementation did for the earlier credential may influence the
 // later one.
 func histSchema(url string, ser bool) *schemaInfo {
-	all := []string{"name", "count", "price", "active", "since", "ref", "spare", "info.grade", "info.note"}
+	all := []string{"name", "count", "price", "active", "since", "ref", "spare", "discount", "info.grade", "info.note"}
 	if ser {
 		return &schemaInfo{Label: "hist-ser", URL: url, Type: ownType, Other: ownOther, Merklized: false,
 			SlotPaths: []string{"count", "info.grade", "active", "name"}, AllPaths: all, Doc: ownContext(ownSerAttr)}
@@ -129,46 +129,57 @@ func (g *gen) generateNonDID(schs []*schemaInfo) []*Input {
 // the attribute names must be bound by the claim: changing or removing it has to
 // be rejected; the fields it does not name are outside the claim.
 func (g *gen) generateSlotSubsets() []*Input {
-	slots := []struct{ key, path string }{
-		{"slotIndexA", "count"}, {"slotIndexB", "info.grade"}, {"slotValueA", "active"}, {"slotValueB", "name"},
+	type slot struct{ key, path string }
+	// two assignments: fields of four kinds; and integer / dateTime fields only, whose values in the
+	// credential encode to 0 (0, the epoch), so that an honest slot is all-zero
+	families := []struct {
+		tag   string
+		zero  bool
+		slots []slot
+	}{
+		{"ser", false, []slot{{"slotIndexA", "count"}, {"slotIndexB", "info.grade"}, {"slotValueA", "active"}, {"slotValueB", "name"}}},
+		{"ser0", true, []slot{{"slotIndexA", "count"}, {"slotIndexB", "info.grade"}, {"slotValueA", "since"}, {"slotValueB", "discount"}}},
 	}
-	all := []string{"name", "count", "price", "active", "since", "ref", "spare", "info.grade", "info.note"}
+	all := []string{"name", "count", "price", "active", "since", "ref", "spare", "discount", "info.grade", "info.note"}
 	var ins []*Input
-	for mask := 1; mask < 16; mask++ {
-		n := 0
-		var parts, paths, names []string
-		for i, s := range slots {
-			if mask&(1<<i) != 0 {
-				n++
-				parts = append(parts, s.key+"="+s.path)
-				paths = append(paths, s.path)
-				names = append(names, s.key[4:])
-			}
-		}
-		if n > 2 && !g.cfg.Thorough() {
-			continue
-		}
-		label := "ser-" + strings.Join(names, "+")
-		sch := &schemaInfo{Label: label, URL: fmt.Sprintf("https://schemas.example/c06/slots-%d.json-ld", mask), Type: ownType, Other: ownOther,
-			Merklized: false, SlotPaths: paths, AllPaths: all, Doc: ownContext("iden3:v1:" + strings.Join(parts, "&"))}
-		sp := g.credSpecs(sch)[mask%2]
-		o := credgen.Opts{RevNonce: uint64(mask), Version: uint32(mask % 3), Upd: mask%2 == 0}
-		ins = append(ins, g.base(sch, sp, o, "complete"))
-		for _, m := range docMods(buildDoc(sp), sch) {
-			named := false
-			for _, s := range slots {
-				if m.Field == s.path {
-					named = true
+	for fi, fam := range families {
+		for mask := 1; mask < 16; mask++ {
+			n := 0
+			var parts, paths, names []string
+			for i, s := range fam.slots {
+				if mask&(1<<i) != 0 {
+					n++
+					parts = append(parts, s.key+"="+s.path)
+					paths = append(paths, s.path)
+					names = append(names, s.key[4:])
 				}
 			}
-			if !named {
+			if !g.cfg.Thorough() && (n == 3 || (n == 2 && fam.zero) || (n == 4 && !fam.zero)) {
 				continue
 			}
-			in := g.base(sch, sp, o, "doc")
-			mb, _ := json.Marshal(m.Doc)
-			in.ModCred, in.Site, in.Field = mb, m.Site, m.Field
-			in.Bound = boundSite(sch, m, !sp.NoSubjectType)
-			ins = append(ins, in)
+			label := fam.tag + "-" + strings.Join(names, "+")
+			sch := &schemaInfo{Label: label, URL: fmt.Sprintf("https://schemas.example/c06/slots-%d-%d.json-ld", fi, mask), Type: ownType, Other: ownOther,
+				Merklized: false, SlotPaths: paths, AllPaths: all, Doc: ownContext("iden3:v1:" + strings.Join(parts, "&"))}
+			sp := g.credSpecs(sch)[mask%2]
+			sp.Zero = fam.zero
+			o := credgen.Opts{RevNonce: uint64(mask), Version: uint32(mask % 3), Upd: mask%2 == 0}
+			ins = append(ins, g.base(sch, sp, o, "complete"))
+			for _, m := range docMods(buildDoc(sp), sch) {
+				named := false
+				for _, s := range fam.slots {
+					if m.Field == s.path {
+						named = true
+					}
+				}
+				if !named {
+					continue
+				}
+				in := g.base(sch, sp, o, "doc")
+				mb, _ := json.Marshal(m.Doc)
+				in.ModCred, in.Site, in.Field = mb, m.Site, m.Field
+				in.Bound = boundSite(sch, m, !sp.NoSubjectType)
+				ins = append(ins, in)
+			}
 		}
 	}
 	return ins
